@@ -188,7 +188,7 @@ theorem bodyItems_ok {f : Name} {fs : List Name} : ∀ (items : List BodyItem) (
           k.evolves (Evolves.consData _ (by rfl) (by rfl) Evolves.refl)
         refine ⟨k1.1, fun y hy => ?_⟩
         rcases List.mem_cons.mp hy with rfl | hy
-        · simp [hasObj, externO]
+        · simp [hasObj]
         · exact k1.2 y hy
     obtain ⟨st1, u, xs1, h1, k1, ho⟩ := step
     obtain ⟨st2, us, h2⟩ := bodyItems_ok (f := f) rest st1 xs1 k1 ho
@@ -318,7 +318,7 @@ theorem fnDecls_cons_func (f : Name) (n : Nat) (s e i : Bool) (body : Option (Li
 
 theorem fnDecls_cons_obj (x : Name) (s e t : Bool) (ty : ObjTy) (init : Option (List InitItem)) (ds : List Decl) (g : Name) :
     fnDecls (.obj x s e t ty init :: ds) g = fnDecls ds g := by
-  simp [fnDecls, List.filterMap_cons]
+  simp [fnDecls]
 
 /-- every function's remaining declarations are compatible with what has been recorded -/
 def FnsOK (gs : List Obj) (ds : List Decl) : Prop :=
